@@ -49,6 +49,7 @@ def run(ctx, progs):
     ctx.rule("PAN1", "feasible explicit panic sites per public entry == documented table")
     ctx.rule("PAN2", "in-crate range arguments have a reviewed non-panicking shape; slice_take instantiations")
     ctx.rule("PAN3", "no buffer write on a path from a panicking entry to its panic site")
+    ctx.rule("PAN4", "every normal return of an asserting function passes each of its documented assertions")
     ctx.rule("MOD1", "REQUIRES(divisor > 0 / N > 0) discharged before reaching a public entry")
     ctx.rule("ARITH1", "Add/Mul on caller-supplied values only at reviewed sites")
     ctx.assumptions.append("INV (size <= N, N > 0 => start < N): preservation checked by INV1 under C04")
@@ -122,6 +123,7 @@ def pan(ctx, prog, cfg):
         cf = prog.fns[caller]
         ctx.check(ok, "PAN2", caller, "range argument of %s" % tgt.split("::")[-1], short_loc(cf, b),
                   "an internal call of `%s` can hit the documented range panic: %s" % (tgt, why), why, cfg)
+    pan4(ctx, prog, cfg)
     # PAN3: documented panics precede mutation
     for entry, fns in DOCUMENTED.items():
         f = prog.fn(entry)
@@ -231,3 +233,40 @@ def implicit_counts(ctx, prog, cfg):
                 elif p in ("<[T]>::split_at", "<[T]>::split_at_mut", "<[T]>::rotate_left"):
                     cnt["split_at"] += 1
     ctx.extra.setdefault("implicit_checks_counted_not_judged", {})[cfg] = cnt
+
+
+ASSERTING = {"translate_range_bounds": 2, "CircularBuffer::swap": 2}
+
+
+def pan4(ctx, prog, cfg):
+    """'panic if and only if': the documented assertions are evaluated on every path to a normal
+    return (an early return before them turns a documented panic into a silent success)."""
+    for short, want in ASSERTING.items():
+        f = ctx.need_fn(prog, short, "PAN4")
+        if f is None:
+            continue
+        guards_ = []
+        preds = f.preds(False)
+        for b, label in panics.direct_sites(f):
+            if label not in ("assert", "assert_eq", "assert_ne"):
+                continue
+            # walk back from the panic site to the switch that decides it
+            x = b
+            seen = set()
+            while x not in seen:
+                seen.add(x)
+                ps = preds.get(x, [])
+                if len(ps) != 1:
+                    break
+                p = ps[0]
+                if f.term(p)["k"] == "switch" and f._switch_const(f.term(p), p) is None:
+                    guards_.append(p)
+                    break
+                x = p
+        guards_ = sorted(set(guards_))
+        rets = set(f.return_blocks())
+        ok = len(guards_) >= want and all(f.must_pass(None, [g], rets) for g in guards_)
+        ctx.check(ok, "PAN4", short, "assertions on every return path", f.loc,
+                  "`%s` can return normally without evaluating all of its %d documented assertions (decision blocks %s): some "
+                  "arguments for which a panic is documented are silently accepted" % (short, want, guards_),
+                  "every return passes the %d assertion decisions bb%s" % (len(guards_), guards_), cfg)
